@@ -81,6 +81,12 @@ def run(ctx):
         if ctx.translate(c15.COMPONENTS):
             ctx.prove_dep('props/C15.v', 'the conditional-shutdown / flag actions are built-in actions of a delivery')
         c15.shutdown_probe(ctx)
+    # the iterator's action while its instance is being torn down: the object gone, the last Handle dropped with a delivery at
+    # every instruction boundary of that drop (D), or dropped by another thread at every instruction boundary of the running
+    # handler (G) - the action neither allocates nor releases heap memory inside the handler
+    import ls_iter
+    if ctx.harness(['p_nested_iter']):
+        ls_iter.instr_sweep(ctx, ('ALLOC', 'RELEASE', 'CRASH', 'BLOCKED'), configs=[('o', 'D', '-'), ('r', 'D', '-'), ('o', 'G', '-'), ('r', 'G', '-')], key='instruction_sweep_drop_of_last_handle')
     ctx.coverage['rule'] = ('lock-step scenarios as C01 (a delivery arriving at every boundary of register/unregister/unregister_signal and of other deliveries); '
                             'monitors: operation kinds of delivery activities, no failed/blocked step, step count <= 10 + #actions, '
                             'allocator wrapper = 0 allocations/releases inside deliveries; plus one real dispatch with all built-in actions on full pipes')
@@ -91,6 +97,9 @@ def replay(ctx, path):
     sc = case.get('case', {}).get('scenario')
     if case.get('case', {}).get('reg_sweep'):
         return L.reg_replay(ctx, case['case'], L.REG_KINDS['C03'])
+    if case.get('case', {}).get('instr_sweep'):
+        import ls_iter
+        return ls_iter.instr_replay(ctx, case['case'], ('ALLOC', 'RELEASE', 'CRASH', 'BLOCKED'))
     if case.get('case', {}).get('history'):
         import c13
         return c13.replay(ctx, path)
